@@ -40,12 +40,13 @@ type Opts struct {
 	TagHeavy      bool // many shared tags, priority ties, several decorators per tag
 	ScopeHeavy    bool // most services declare a scope
 	AliasHeavy    bool // many aliases over confusable paths; alias spellings preferred
+	Stdlib        bool // services built by standard-library constructors (import paths sorting before / after the template's own imports); ignored when Behavioural
 }
 
 func All() Opts {
 	return Opts{MaxServices: 6, MaxParams: 5, Scopes: true, Tags: true, Decorators: true, Calls: true, Fields: true,
 		Getters: true, NonFinite: true, Todo: true, FailCtor: true, Funcs: true, Aliases: true, HostileAlias: true,
-		MetaNames: true, ValueKinds: true, CurrentPkg: true, Unicode: true, TemplateAlias: true}
+		MetaNames: true, ValueKinds: true, CurrentPkg: true, Unicode: true, TemplateAlias: true, Stdlib: true}
 }
 
 // Labels collects feature labels of a generated configuration.
@@ -383,7 +384,7 @@ func (g *G) genFuncCall(label string) string {
 		name := pickStr(g, envNames, label+"-env")
 		switch g.draw(3, label+"-def") {
 		case 0:
-			return fmt.Sprintf(`%%env(%s, %s)%%`, goStringLit(name), goStringLit(g.genTextNoPercent(label+"-d")))
+			return fmt.Sprintf(`%%env(%s, %s)%%`, goStringLit(name), g.fnArg(goStringLit(g.genTextNoPercent(label+"-d")), "string", label+"-d"))
 		case 1:
 			if g.O.Behavioural {
 				return fmt.Sprintf(`%%env(%s)%%`, goStringLit(name)) // fails when the variable is unset
@@ -399,10 +400,13 @@ func (g *G) genFuncCall(label string) string {
 		if g.O.Behavioural && g.draw(3, label+"-nodef") == 0 {
 			return fmt.Sprintf(`%%envInt(%s)%%`, goStringLit(name))
 		}
-		return fmt.Sprintf(`%%envInt(%s, %d)%%`, goStringLit(name), rapid.IntRange(-5, 5).Draw(g.T, label+"-i"))
+		return fmt.Sprintf(`%%envInt(%s, %s)%%`, goStringLit(name), g.fnArg(fmt.Sprint(rapid.IntRange(-5, 5).Draw(g.T, label+"-i")), "int", label+"-i"))
 	case "todo":
 		g.L.Add("fn:todo")
 		if g.flip(label + "-msg") {
+			if g.chance(40, label+"-msgtext") {
+				return fmt.Sprintf(`%%todo(%s)%%`, g.fnArg(goStringLit(g.genTextNoPercent(label+"-m")), "string", label+"-m"))
+			}
 			return `%todo("not yet")%`
 		}
 		return `%todo()%`
@@ -418,18 +422,49 @@ func (g *G) genFuncCall(label string) string {
 	}
 	switch g.draw(4, label+"-echo") {
 	case 0:
-		return fmt.Sprintf(`%%%s(%d)%%`, fn, rapid.IntRange(-9, 9).Draw(g.T, label+"-c"))
+		return fmt.Sprintf(`%%%s(%s)%%`, fn, g.fnArg(fmt.Sprint(rapid.IntRange(-9, 9).Draw(g.T, label+"-c")), "int", label+"-c"))
 	case 1:
-		return fmt.Sprintf(`%%%s(true)%%`, fn)
+		return fmt.Sprintf(`%%%s(%s)%%`, fn, g.fnArg("true", "bool", label+"-b"))
 	case 2:
-		return fmt.Sprintf(`%%%s(1.5)%%`, fn)
+		return fmt.Sprintf(`%%%s(%s)%%`, fn, g.fnArg("1.5", "float", label+"-f"))
 	}
-	return fmt.Sprintf(`%%%s(%s)%%`, fn, goStringLit(g.genTextNoPercent(label+"-s")))
+	return fmt.Sprintf(`%%%s(%s)%%`, fn, g.fnArg(goStringLit(g.genTextNoPercent(label+"-s")), "string", label+"-s"))
 }
+
+// fnArgTexts: string contents that a careless re-tokenisation of a function call would damage.
+var fnArgTexts = []string{"a,b", "a ,b", "a,,b", "1,000", "x)", "(x", "))", ", ", "a, b", ",", "(", ")", "a)b(", "f(x), g(y)", "\"", "\\", "'", "a\"b", "tab\there", " lead", "trail "}
 
 // genTextNoPercent: text for use inside a function argument literal (a `%` would end the token).
 func (g *G) genTextNoPercent(label string) string {
-	return strings.ReplaceAll(rapid.StringMatching(`[a-zA-Z0-9 _:/.-]{0,6}`).Draw(g.T, label), "%", "")
+	if g.chance(50, label+"-hostile") {
+		g.L.Add("fnarg:separator-or-bracket-inside-string")
+		return pickStr(g, fnArgTexts, label+"-h")
+	}
+	return strings.ReplaceAll(rapid.StringMatching(`[a-zA-Z0-9 _:/.,()'-]{0,6}`).Draw(g.T, label), "%", "")
+}
+
+// fnArg optionally dresses a Go literal up as another Go expression with the same value: parentheses or a
+// conversion to its own type (documented: the text between the parentheses is Go code).
+func (g *G) fnArg(lit, kind, label string) string {
+	if !g.chance(20, label+"-expr?") {
+		return lit
+	}
+	g.L.Add("fnarg:go-expression")
+	switch g.draw(3, label+"-expr") {
+	case 0:
+		return "(" + lit + ")"
+	case 1:
+		return "((" + lit + "))"
+	}
+	switch kind {
+	case "int":
+		return "int(" + lit + ")"
+	case "string":
+		return "string(" + lit + ")"
+	case "float":
+		return "float64(" + lit + ")"
+	}
+	return "(" + lit + ")"
 }
 
 // genPattern returns a valid pattern string; refs lists usable parameter names.
@@ -469,6 +504,10 @@ func (g *G) genLiteral(label string) cfg.Val {
 	switch g.draw(8, label) {
 	case 0:
 		g.L.Add("lit:int")
+		if g.flip(label + "-alike") {
+			// a small pool shared with the float and string literals: values of different types that print alike
+			return cfg.Int(rapid.SampledFrom([]int64{0, 1, 3, -2, 100}).Draw(g.T, label+"-ia"))
+		}
 		return cfg.Int(int64(rapid.IntRange(-1000, 1000).Draw(g.T, label+"-i")))
 	case 1:
 		g.L.Add("lit:bigint")
@@ -482,7 +521,7 @@ func (g *G) genLiteral(label string) cfg.Val {
 			return cfg.Val{K: "float", FS: rapid.SampledFrom([]string{".inf", "-.inf", ".nan"}).Draw(g.T, label+"-fs")}
 		}
 		g.L.Add("lit:float")
-		return cfg.Float(rapid.SampledFrom([]float64{0, 1.5, -2.25, 1e21, 1e-7, 3.0, 123456789.125}).Draw(g.T, label+"-f"))
+		return cfg.Float(rapid.SampledFrom([]float64{0, 1.5, -2.25, 1e21, 1e-7, 3.0, 123456789.125, 1.0, -2.0, 100.0}).Draw(g.T, label+"-f"))
 	case 4:
 		g.L.Add("lit:bool")
 		return cfg.Bool(g.flip(label + "-b"))
@@ -491,6 +530,9 @@ func (g *G) genLiteral(label string) cfg.Val {
 		return cfg.Null()
 	}
 	g.L.Add("lit:string")
+	if g.chance(10, label+"-salike") {
+		return cfg.Str(rapid.SampledFrom([]string{"0", "1", "3", "-2", "100", "1.5", "true", "false", "null", "~", "nil", ""}).Draw(g.T, label+"-sa"))
+	}
 	return cfg.Str(plainText(strings.ReplaceAll(g.genText(label+"-s"), "%", "%%")))
 }
 
@@ -638,6 +680,11 @@ func (g *G) genArg(svcs []string, openTags []string, label string) cfg.Val {
 
 func (g *G) genArgs(max int, svcs, openTags []string, label string) []cfg.Val {
 	n := g.draw(max+1, label+"-n")
+	if g.chance(4, label+"-many") {
+		// more than ten positions: decimal position numbers no longer sort like numbers
+		n = 11 + g.draw(3, label+"-manyn")
+		g.L.Add("args:more-than-ten")
+	}
 	var r []cfg.Val
 	for i := 0; i < n; i++ {
 		r = append(r, g.genArg(svcs, openTags, fmt.Sprintf("%s%d", label, i)))
@@ -904,6 +951,35 @@ func Valid(t *rapid.T, o Opts) (cfg.Config, Labels) {
 	g.genMeta()
 	g.genParams()
 	g.genServices()
+	g.genStdlib()
 	FixScopes(&g.C)
 	return g.C, g.L
+}
+
+// genStdlib adds services whose constructor lives in a standard-library package that is otherwise unused: its
+// import is needed by the normal output only ("bytes" sorts before every import of the template, "unicode/utf8"
+// after all of them), or - with a getter type - by both modes.
+func (g *G) genStdlib() {
+	if !g.O.Stdlib || g.O.Behavioural || !g.chance(15, "stdlib?") {
+		return
+	}
+	for _, a := range g.Aliases {
+		switch a.K {
+		case "bytes", "strings", "unicode", "bufio":
+			return
+		}
+	}
+	g.L.Add("stdlib-constructor")
+	if g.flip("stdlib-early") {
+		s := cfg.Service{Name: "zz-buf", Ctor: cfg.P("bytes.NewBufferString"), Args: []cfg.Val{cfg.Str("x")}}
+		if g.O.Getters && g.flip("stdlib-early-getter") {
+			s.Getter, s.Type = cfg.P("GetZzBuf"), cfg.P("*bytes.Buffer")
+			g.L.Add("stdlib-constructor:with-getter-type")
+		}
+		g.C.Services = append(g.C.Services, s)
+	}
+	if g.flip("stdlib-late") {
+		g.C.Services = append(g.C.Services, cfg.Service{Name: "zz-rd", Ctor: cfg.P("strings.NewReader"), Args: []cfg.Val{cfg.Str("y")}})
+		g.C.Services = append(g.C.Services, cfg.Service{Name: "zz-rn", Value: cfg.P("unicode/utf8.RuneError")})
+	}
 }
